@@ -32,6 +32,7 @@ import gtirb
 import gtirb_rewriting._auxdata as _auxdata
 import gtirb_rewriting._auxdata_offsetmap as _auxdata_offsetmap
 
+from .. import _verif
 from .._auxdata_offsetmap import OFFSETMAP_AUX_DATA_TABLES
 from ..utils import _is_fallthrough_edge
 from .cache import ModifyCache
@@ -136,6 +137,14 @@ def join_blocks(
 
     joinable = are_joinable(cache, block1, block2)
     if not joinable:
+        if _verif.ENABLED:
+            _verif.emit(
+                "join_refused",
+                cache=cache,
+                block1=block1,
+                block2=block2,
+                reason=joinable.reason,
+            )
         raise UnjoinableBlocksError(joinable.reason)
 
     ir = block1.ir
@@ -197,5 +206,8 @@ def join_blocks(
     block1.size = block1.size + block2.size
     cache.block_ordering[block2.section].remove_block(block2)
     block2.byte_interval = None
+
+    if _verif.ENABLED:
+        _verif.emit("join_blocks", cache=cache, block1=block1, block2=block2)
 
     return block1
